@@ -685,7 +685,14 @@ def _decide(cfg, out, paths, opts, mode):
         out.extra["partial_raise"] = nraise
     msgs = validate_path(cfg, out, paths, mode == "vjp", mode == "jvp")
     if msgs:
-        out.status, out.detail = "error", "translation validation failed: " + "; ".join(msgs)
+        # the object-dtype run and the float64 run of the real code disagree.  If the float64 derivative is itself wrong
+        # against finite differences of NumPy's function (3/3 random regular points) this is a violation observed on
+        # the real arrays; otherwise the model is at fault.
+        out.detail = "translation validation failed: " + "; ".join(msgs)
+        float_probe(cfg, out, mode)
+        if out.status == "violation":
+            return
+        out.status = "error"
         return
     out.status = "holds"
 
